@@ -13,10 +13,14 @@ use std::sync::atomic::Ordering;
 use std::sync::{Arc as StdArc, Barrier};
 use triomphe::{Arc, ArcUnion, OffsetArc};
 
+type FatHs = Arc<triomphe::HeaderSlice<triomphe::HeaderWithLength<A>, [u32]>>;
 enum H {
     Arc(Arc<A>),
     Off(OffsetArc<A>),
     Uni(ArcUnion<A, B>),
+    // header-slice blocks (a separate scenario: all handles of a run refer to one block)
+    Thin(triomphe::ThinArc<A, u32>),
+    Fat(FatHs),
 }
 
 struct Rng(u64);
@@ -65,6 +69,8 @@ fn heap_of(h: &H) -> usize {
         H::Arc(a) => a.heap_ptr() as usize,
         H::Off(o) => (&**o as *const A as usize) - 8,
         H::Uni(u) => (u.as_first().map(|b| b.get() as *const A as usize).unwrap_or(8)) - 8,
+        H::Thin(t) => t.heap_ptr() as usize,
+        H::Fat(f) => f.heap_ptr() as usize,
     }
 }
 
@@ -74,6 +80,7 @@ const OPS: [&str; 9] = ["clone", "read", "drop", "get_mut", "try_unwrap", "make_
 enum Lender {
     Borrow(triomphe::ArcBorrow<'static, A>),
     Offset(&'static OffsetArc<A>),
+    Thin(&'static triomphe::ThinArc<A, u32>),
 }
 unsafe impl Send for Lender {}
 impl Lender {
@@ -84,6 +91,13 @@ impl Lender {
                     H::Arc(b.clone_arc())
                 } else {
                     H::Arc(b.with_arc(|a| a.clone()))
+                }
+            }
+            Lender::Thin(t) => {
+                if how % 2 == 0 {
+                    H::Thin((*t).clone())
+                } else {
+                    H::Fat(t.with_arc(|a| a.clone()))
                 }
             }
             Lender::Offset(o) => match how % 3 {
@@ -148,6 +162,14 @@ fn worker(tid: u32, mut hs: Vec<H>, seed: u64, nops: usize, shared: usize, yield
                         }
                     }
                     H::Uni(u) => H::Uni(u.clone()),
+                    H::Thin(t) => {
+                        if rng.below(2) == 0 {
+                            H::Thin(t.clone())
+                        } else {
+                            H::Fat(t.with_arc(|a| a.clone()))
+                        }
+                    }
+                    H::Fat(f) => H::Fat(f.clone()),
                 };
                 mark(HINC, 0);
                 if hs.len() < 6 {
@@ -162,6 +184,8 @@ fn worker(tid: u32, mut hs: Vec<H>, seed: u64, nops: usize, shared: usize, yield
                     H::Arc(a) => read_payload(a),
                     H::Off(o) => read_payload(o),
                     H::Uni(u) => u.as_first().map(|b| read_payload(b.get())).unwrap_or(0),
+                    H::Thin(t) => read_payload(&t.header.header),
+                    H::Fat(f) => read_payload(&f.header.header),
                 };
             }
             "drop" => {
@@ -170,7 +194,17 @@ fn worker(tid: u32, mut hs: Vec<H>, seed: u64, nops: usize, shared: usize, yield
                 drop(h);
             }
             "get_mut" => {
-                if let H::Arc(a) = &mut hs[i] {
+                if let H::Fat(f) = &mut hs[i] {
+                    if let Some(r) = Arc::get_mut(f) {
+                        write_payload(&mut r.header.header, step as u32);
+                    }
+                } else if let H::Thin(t) = &mut hs[i] {
+                    t.with_arc_mut(|a| {
+                        if let Some(r) = Arc::get_mut(a) {
+                            write_payload(r.header_mut(), step as u32);
+                        }
+                    });
+                } else if let H::Arc(a) = &mut hs[i] {
                     match rng.below(3) {
                         0 => {
                             if let Some(r) = Arc::get_mut(a) {
@@ -206,7 +240,7 @@ fn worker(tid: u32, mut hs: Vec<H>, seed: u64, nops: usize, shared: usize, yield
                 }
             }
             "make_mut" => {
-                if !matches!(hs[i], H::Uni(_)) {
+                if matches!(hs[i], H::Arc(_) | H::Off(_)) {
                     let mut h = hs.swap_remove(i);
                     mark(HDEC, 0);
                     match &mut h {
@@ -240,6 +274,8 @@ fn worker(tid: u32, mut hs: Vec<H>, seed: u64, nops: usize, shared: usize, yield
                     H::Arc(a) => Arc::strong_count(a),
                     H::Off(o) => OffsetArc::strong_count(o),
                     H::Uni(u) => ArcUnion::strong_count(u),
+                    H::Thin(t) => triomphe::ThinArc::strong_count(t),
+                    H::Fat(f) => Arc::strong_count(f),
                 };
             }
             _ => {
@@ -253,6 +289,11 @@ fn worker(tid: u32, mut hs: Vec<H>, seed: u64, nops: usize, shared: usize, yield
                     },
                     H::Off(o) => H::Arc(Arc::from_raw_offset(o)),
                     H::Uni(u) => H::Uni(u),
+                    H::Thin(t) => match rng.below(2) {
+                        0 => H::Fat(Arc::from_thin(t)),
+                        _ => unsafe { H::Thin(triomphe::ThinArc::from_raw(t.into_raw())) },
+                    },
+                    H::Fat(f) => H::Thin(Arc::into_thin(f)),
                 };
                 hs.push(n);
             }
@@ -269,6 +310,84 @@ fn worker(tid: u32, mut hs: Vec<H>, seed: u64, nops: usize, shared: usize, yield
     for h in private {
         std::mem::forget(h);
     }
+}
+
+/// the same runner over ThinArc / fat header-slice handles to one header-slice block
+fn run_thin(seed: u64, nthreads: usize, nops: usize, mut rng: Rng) -> Vec<Value> {
+    static THIN_MENU: [&str; 8] = ["clone", "clone", "read", "drop", "drop", "get_mut", "count", "convert"];
+    let root: triomphe::ThinArc<A, u32> = triomphe::ThinArc::from_header_and_slice(A::mk(1), &[1, 2, 3]);
+    let shared = root.heap_ptr() as usize;
+    let pid = root.header.header.see().id;
+    let with_lender = seed % 2 == 0;
+    let from_one = with_lender && (seed / 8) % 2 == 0;
+    let mut per: Vec<Vec<H>> = vec![];
+    let mut init: Vec<usize> = vec![];
+    for _ in 0..nthreads {
+        let n = if from_one { 0 } else { 1 + rng.below(2) };
+        let mut v = vec![];
+        for _ in 0..n {
+            v.push(if rng.below(2) == 0 { H::Thin(root.clone()) } else { H::Fat(Arc::from_thin(root.clone())) });
+        }
+        init.push(n);
+        per.push(v);
+    }
+    let total: usize = init.iter().sum::<usize>() + if with_lender { 1 } else { 0 };
+    let mut root_box: Option<Box<triomphe::ThinArc<A, u32>>> = None;
+    if with_lender {
+        root_box = Some(Box::new(root));
+    } else {
+        drop(root);
+    }
+    let lender: Option<Lender> = root_box.as_ref().map(|b| Lender::Thin(unsafe { &*(&**b as *const triomphe::ThinArc<A, u32>) }));
+    ev::LOG.clear();
+    SERIALISE.store(true, Ordering::SeqCst);
+    let barrier = StdArc::new(Barrier::new(nthreads));
+    let coop = seed % 3 != 0;
+    YIELD_EVERY.store(if coop { 0 } else { [1usize, 2, 3][(seed % 3) as usize] }, Ordering::SeqCst);
+    if coop {
+        let tids: Vec<u32> = (1..=nthreads as u32).collect();
+        sched_start(seed, &tids);
+    }
+    let mut joins = vec![];
+    for (t, hs) in per.into_iter().enumerate() {
+        let b = barrier.clone();
+        let s = rng.next();
+        struct SendIt(Vec<H>);
+        unsafe impl Send for SendIt {}
+        let pack = SendIt(hs);
+        joins.push(std::thread::spawn(move || {
+            let pack = pack;
+            b.wait();
+            worker(t as u32 + 1, pack.0, s, nops, shared, false, lender, &THIN_MENU);
+        }));
+    }
+    let nworkers = joins.len();
+    for j in joins {
+        let _ = j.join();
+    }
+    sched_stop();
+    TID.with(|t| t.set(5));
+    for w in 1..=nworkers {
+        LOG.push(Ev::Mark { tid: w as u32, code: SYNC, a: 5 });
+    }
+    if root_box.is_some() {
+        mark(START, 2);
+        mark(HDEC, 0);
+        drop(root_box.take());
+        mark(END, 0);
+    }
+    TID.with(|t| t.set(0));
+    SERIALISE.store(false, Ordering::SeqCst);
+    alloc::track(false);
+    let mut init = init;
+    init.resize(4, 0);
+    init.push(if with_lender { 1 } else { 0 });
+    let lines = convert(ev::drain(), shared, pid, init, total, nthreads, seed);
+    if ev::LOG.overflow.load(Ordering::SeqCst) {
+        eprintln!("event log overflow");
+        std::process::exit(2);
+    }
+    lines
 }
 
 /// the recorded events as NDJSON records for ArcMMTrace
@@ -359,6 +478,9 @@ pub fn run_many(seed: u64, runs: usize, nops: usize, out_path: &str) {
 pub fn run(seed: u64, nthreads: usize, nops: usize) -> Vec<Value> {
     let mut rng = Rng(seed | 1);
     alloc::track(true);
+    if (seed / 32) % 3 == 2 {
+        return run_thin(seed, nthreads, nops, rng);
+    }
     let root = Arc::new(A::mk(1));
     let shared = root.heap_ptr() as usize;
     let pid = root.see().id;
